@@ -168,9 +168,10 @@ impl IndexRead {
         let hunks = self.hunks_available().await?;
         debug!(?hunks);
         Ok(IndexHunkIter {
-            hunks: hunks.into_iter(),
+            hunks: hunks.into_iter().peekable(),
             index: self,
             after: None,
+            next_expected: 0,
         })
     }
 }
@@ -199,10 +200,13 @@ fn invalid_entry(entry: &IndexEntry) -> Option<&'static str> {
 ///
 /// Each returned item is a vec of (typically up to a thousand) index entries.
 pub struct IndexHunkIter {
-    hunks: std::vec::IntoIter<u32>,
+    hunks: std::iter::Peekable<std::vec::IntoIter<u32>>,
     pub index: IndexRead,
     /// If set, yield only entries ordered after this apath.
     after: Option<Apath>,
+    /// The number the next hunk should have: hunks are numbered consecutively from zero,
+    /// so anything else means that a hunk file has gone missing.
+    next_expected: u32,
 }
 
 impl IndexHunkIter {
@@ -213,23 +217,32 @@ impl IndexHunkIter {
         loop {
             match self.try_next().await {
                 Ok(hunk) => return hunk,
-                Err(Error::IndexHunkMissing { .. }) => return None,
                 Err(_err) => continue,
             }
         }
     }
 
-    /// Return the next hunk of entries, or an error if a hunk that was listed can't be
-    /// found, read or decoded.
+    /// Return the next hunk of entries, or an error if a hunk is missing (there is a gap in
+    /// the numbering, or a hunk that was listed can't be found) or can't be read or decoded.
     ///
     /// After an error the iterator can be used again and continues with the following hunk.
     /// Callers for which silently missing entries are dangerous (for example, working
     /// out which blocks are unreferenced) must use this rather than [IndexHunkIter::next].
     pub async fn try_next(&mut self) -> Result<Option<Vec<IndexEntry>>> {
         loop {
-            let Some(hunk_number) = self.hunks.next() else {
+            let Some(&hunk_number) = self.hunks.peek() else {
                 return Ok(None);
             };
+            if hunk_number > self.next_expected {
+                // Report the gap once; the next call carries on with the hunk that is there.
+                let missing = self.next_expected;
+                self.next_expected = hunk_number;
+                return Err(Error::IndexHunkMissing {
+                    hunk_number: missing,
+                });
+            }
+            self.hunks.next();
+            self.next_expected = hunk_number + 1;
             let entries = match self.index.read_hunk(hunk_number).await? {
                 None => return Err(Error::IndexHunkMissing { hunk_number }),
                 Some(entries) => entries,
@@ -281,6 +294,13 @@ impl IndexHunkIter {
             entries.extend(hunk);
         }
         Ok(entries)
+    }
+
+    /// The number of hunks passed so far, counting missing ones that were reported.
+    ///
+    /// Once the iterator is exhausted this is the number of hunks the index appears to have.
+    pub fn hunks_passed(&self) -> u32 {
+        self.next_expected
     }
 
     /// Advance self so that it returns only entries with apaths ordered after `apath`.
